@@ -137,14 +137,14 @@ func vpH_C17_handle() {
 }
 
 type vpListener struct {
-	conns     []*vpConn
-	next      int
-	ctx       *vpCtx
-	closed    int
-	accepts   int
-	maxAccept int
-	deadlines int
-	log       *vpEventLog
+	conns      []*vpConn
+	next       int
+	ctx        *vpCtx
+	closed     int
+	accepts    int
+	maxAccept  int
+	deadlines  int
+	log        *vpEventLog
 	closeFails bool
 	permanent  bool
 }
